@@ -318,7 +318,15 @@ theorem reopen_persist (C : Crypto) (hC : HashWF C) (hTw : TreeWF C) (c : Core) 
     obtain ⟨_, _, _, _, _, _, _, _, _, _, hok⟩ := hp.oplog
     exact hok
   obtain ⟨h', t', b', hopen, hinv, hs'⟩ := Reopen.reopen_full C hC hTw d ost hf es a0 a hlog hp.hfLen hp.hfSig
-    hp.hfShape hoks hp.fileNodes hp.fileBits hp.held0Lt hp.hfContig hp.small0 hp.trace
+    hp.hfShape hoks hp.fileNodes (fun i _ => hp.fileBits i) (fun i hh => Or.inl (by rw [hp.fileBits]; exact hh))
+    (fun i _ hh => by rw [hp.fileBits]; exact hh)
+    (fun i hi => by
+      rw [hp.fileBits] at hi
+      exact Nat.lt_of_lt_of_le (hp.held0Lt i hi) (Touch.trace_size_le C a0 a es hp.trace))
+    hp.held0Lt
+    ⟨fun i hi => by rw [← hp.fileBits]; exact hp.hfContig.1 i hi, by rw [← hp.fileBits]; exact hp.hfContig.2⟩
+    hp.small0 hp.trace
+  obtain ⟨hbits', hfm'⟩ := Reopen.rinv_final C t' b' h' d.tree d.bitfield a _ hinv
   refine ⟨_, hopen, ?_, ?_⟩
   · exact {
       writer := by
@@ -327,9 +335,9 @@ theorem reopen_persist (C : Crypto) (hC : HashWF C) (hTw : TreeWF C) (c : Core) 
       tree := hinv.tree
       nodes := hinv.nodes
       mapwf := hinv.mapwf
-      bits := hinv.bits
+      bits := hbits'
       heldLt := hinv.heldLt
-      contig := hinv.contig
+      contig := hfm'
       data := hrep.data
       small := hrep.small }
   · exact {
